@@ -170,6 +170,22 @@ class RateManager:
         return X, y
 
 
+#: Members of a completely written entry of a rating container
+ENTRY_DATASETS = ["fit", "fit range", "force", "fit residuals",
+                  "tip position", "segment"]
+ENTRY_ATTRIBUTES = ["data enum", "data hash",
+                    "user comment", "user name", "user rate"]
+
+
+def entry_is_complete(h5gr):
+    """Whether an analysis group of a rating container is complete
+
+    A group is incomplete if :func:`save_hdf5` was interrupted.
+    """
+    return (all(key in h5gr for key in ENTRY_DATASETS)
+            and all(key in h5gr.attrs for key in ENTRY_ATTRIBUTES))
+
+
 @lru_cache(maxsize=100)
 def hash_file(path, blocksize=65536):
     """Compute sha256 hex-hash of a file
@@ -240,7 +256,7 @@ def load_hdf5(path, meta_only=False):
         # load individual curves
         for akey in h5["analysis"]:
             h5gr = h5["analysis"][akey]
-            if "fit" not in h5gr:
+            if not entry_is_complete(h5gr):
                 warnings.warn(f"Ignoring incomplete '{akey}'!")
                 continue
             attrs = h5gr.attrs
@@ -318,10 +334,16 @@ def save_hdf5(h5path, indent, user_rate, user_name, user_comment, h5mode="a"):
         # store indentation data along with the user rate
         ana = h5.require_group("analysis")
         idd = "{}_{}".format(dhash, indent.enum)
+        if idd in ana and not entry_is_complete(ana[idd]):
+            # Remove the remains of an interrupted save.
+            del ana[idd]
         if idd in ana:
             # Only allow overriding of user data if fit matches.
             # Otherwise, the rating might be wrong.
-            if not np.allclose(indent["fit"], ana[idd]["fit"], equal_nan=True):
+            # (exact comparison; forces are in the nN range, far below
+            # the default absolute tolerance of `np.allclose`)
+            if not np.array_equal(indent["fit"], ana[idd]["fit"],
+                                  equal_nan=True):
                 raise ValueError("Cannot store rating for different fit in "
                                  "same rating container!")
             out = ana[idd]
